@@ -872,6 +872,12 @@ runLoop:
 			if m == nil || rm == nil || rm2 == nil {
 				continue
 			}
+			// how the representations are grouped into AdaptationSets does not depend on the order of the uploads
+			// (where both sequential orders agree): two tracks of one set registering at the same time included
+			if rm.Partition == rm2.Partition && m.Partition != rm.Partition {
+				res.Violate("C19.equals-sequential", feat("kind", "adaptation-set-grouping", "mpd", mname),
+					"channel %s %s: AdaptationSets group the representations as %q after the concurrent run, as %q after both sequential orders", c.Name, mname, m.Partition, rm.Partition)
+			}
 			have, have2 := map[string]bool{}, map[string]bool{}
 			for _, r := range m.Reps {
 				have[r.ID] = true
